@@ -62,6 +62,10 @@ def base_program(pkg, layout="three", import_form="from_import", entry_data=Fals
     # a kept call whose argument is a call written inside the argument list
     hn = gen.add_fn(p, mid, "hn", const=35)
     E4 = gen.add_fn(p, top, "E4", params=[("w", None)], const=36)
+    # ... and one with several calls written inside its argument list (positional and keyword)
+    hn2 = gen.add_fn(p, mid, "hn2", const=43)
+    hn3 = gen.add_fn(p, leaf, "hn3", const=46)
+    E5 = gen.add_fn(p, top, "E5", params=[("u", None), ("v", None), ("w", None)], const=47)
     main = gen.add_fn(p, top, "main", const=1, data_path="/main" if entry_data else None)
     p["fns"][main]["stmts"] = [
         gen.s_keep("/a", A, [gen.lit("1"), gen.lit("2")]),
@@ -72,6 +76,7 @@ def base_program(pkg, layout="three", import_form="from_import", entry_data=Fals
         gen.s_keep("/e2", E2, [gen.lit("1"), gen.local(1, kw="z")]),
         gen.s_keep("/e3", E3, [gen.lit("4")]),
         gen.s_keep("/e4", E4, [gen.callarg(hn)]),
+        gen.s_keep("/e5", E5, [gen.callarg(hn2), gen.callarg(hn3), gen.callarg(hn, kw="w")]),
         gen.s_call(EMS, []),
         gen.s_keep("/empty/bytes", EMB, [gen.lit("1")]),
         gen.s_call(CRT, []),
@@ -230,6 +235,18 @@ def matrix_cases(tier, seed, stores=("local",)):
         p1, d = gen.e_set_var(p0, vid)
         d.update({"position": pos, "variant": "default_is_module_variable"})
         emit("default_var@%s" % pos, p0, p1, d)
+    # D5c: one function kept twice in one evaluation under two paths, each time with a run-time argument (different
+    # values) next to a literal / an omitted default that is the same in both calls; then the function is edited
+    for shape in ("literal", "default", "keyword"):
+        p0 = base_program("pm%d" % k)
+        k += 1
+        ids = p0["_ids"]
+        W = gen.add_fn(p0, ids["mid"], "W2", params=[("a", None), ("b", "7" if shape == "default" else None)], const=44)
+        extra = [] if shape == "default" else [gen.lit("5", kw="b" if shape == "keyword" else None)]
+        p0["fns"][ids["main"]]["stmts"] += [gen.s_keep("/tw2/a", W, [gen.local(0)] + extra), gen.s_keep("/tw2/b", W, [gen.local(1)] + extra)]
+        p1, d = gen.e_set_const(p0, W)
+        d.update({"position": "W2", "variant": "same_function_two_keeps_mixed_args:" + shape})
+        emit("two_keeps_mixed_args:%s" % shape, p0, p1, d)
     # D6: import forms for the cross-module references (edit = callee constant two modules away)
     for form in gen.IMPORT_FORMS:
         for layout in ("three", "deep"):
@@ -397,11 +414,19 @@ def zero_edit_cases(tier, seed, stores=("local",)):
     reordering, non-accepted edits, relocation, entry-style switches."""
     cases = []
     k = 0
-    for layout, form, *flags in (("three", "from_import"), ("one", "from_import"), ("deep", "rel_from"), ("three", "import_mod_as"), ("two", "from_import_as"), ("three", "from_import", "ext-inside"), ("deep", "from_import", "ext-inside")):
+    for layout, form, *flags in (("three", "from_import"), ("one", "from_import"), ("deep", "rel_from"), ("three", "import_mod_as"), ("two", "from_import_as"), ("three", "from_import", "ext-inside"), ("deep", "from_import", "ext-inside"), ("three", "from_import", "ext-base"), ("two", "from_import_as", "ext-base")):
         for entry_data in (False, True):
             p0 = base_program("pz%d" % k, layout=layout, import_form=form, entry_data=entry_data, ext_inside="ext-inside" in flags)
             k += 1
             ids = p0["_ids"]
+            if "ext-base" in flags:
+                # an accepted class that derives from a class of the non-accepted package, used by two kept functions
+                amod = p0["fns"][ids["A"]]["module"]
+                cid = gen.add_cls(p0, amod, "Derived", const=81)
+                p0["classes"][cid]["base_ext"] = True
+                p0["order"][amod].remove(("cls", cid))
+                p0["order"][amod].insert(0, ("cls", cid))
+                p0["fns"][ids["A"]]["stmts"].append(gen.s_method(cid, "4"))
             versions = [p0]
             descs = {}
             hist = [{"v": 0, "new_process": True}, {"v": 0, "new_process": False}, {"v": 0, "new_process": True}]
@@ -836,6 +861,17 @@ def path_shape_cases(tier, seed):
         descs = {(0, 1): {"kind": "branch_off+set_const", "site": ["T"]}, (1, 2): {"kind": "branch_on", "site": ["V"]}, (2, 3): {"kind": "branch_off+set_const_other", "site": ["T"]}, (3, 0): {"kind": "revert", "site": ["T"]}}
         hist = history_same_process([0, 1, 2, 3, 0], "reload") if store == "memory" or k % 2 else history_restart([0, 1, 2, 3, 0])
         cases.append(_case("pathcond|%s" % store, versions, descs, hist, store))
+        # ... the same with the enclosing function kept itself (served from the store when an unchanged version is evaluated
+        # again), one of the repeated evaluations exporting the dependency graph
+        pkg = "pc%d" % k
+        k += 1
+        kv = []
+        for q in [cond_program("True", None), cond_program("False", {1: 901, 2: 902}), cond_program("True", {1: 901, 2: 902}), cond_program("False", {0: 900, 1: 903, 2: 904})]:
+            q["fns"][q["entry"]]["data_path"] = "/cnd/report"
+            kv.append(q)
+        mk = (lambda v, **kw: dict({"v": v, "new_process": True, "style": "eval"}, **kw)) if not (store == "memory" or k % 2) else (lambda v, **kw: dict({"v": v, "new_process": False, "how": "reload", "style": "eval"}, **kw))
+        hist = [dict(mk(0), new_process=True), mk(1), mk(1, options={"dds_export_graph": "@root"}), mk(1), mk(2), mk(2, options={"dds_export_graph": "@root"}), mk(3), mk(3, options={"dds_export_graph": "@root"}), mk(3), mk(0)]
+        cases.append(_case("pathcond-kept-parent|%s" % store, kv, descs, hist, store))
     # twins: one call kept under its path and under alias paths that appear over time
     for pi, paths in enumerate(PATH_SETS[:2]):
         for store in stores:
